@@ -171,7 +171,16 @@ fn downstream(a: &Attribute) -> Val {
         i(0)
     });
     let ins = caught(|| insert_next_to_competitor(a));
-    Val::L(vec![aspl, enc, list, ins])
+    // listed and given back: 0 the same value, 1 another value, 2 refused
+    let relist = if matches!(a.code(), Attribute::TUNNEL_ENCAP | Attribute::LS | Attribute::PREFIX_SID) {
+        i(0)
+    } else {
+        caught(|| match attr_from_api(attr_to_api(a)) {
+            Ok(b) => i(if &b == a { 0 } else { 1 }),
+            Err(_) => i(2),
+        })
+    };
+    Val::L(vec![aspl, enc, list, ins, relist])
 }
 
 // kind 1
@@ -197,7 +206,8 @@ fn run_api_nlri(l: &[Val]) -> Val {
         Err(_) => Val::L(vec![i(0)]),
         Ok(n) => {
             let enc = caught(|| Val::from_bytes(&n.encode_to_bytes()));
-            Val::L(vec![i(1), nlri_val(&n), enc])
+            let relist = caught(|| net_from_api_val(net_from_api(nlri_to_api(&n), Family::IPV4)));
+            Val::L(vec![i(1), nlri_val(&n), enc, relist])
         }
     }
 }
